@@ -5,7 +5,13 @@
      argsort()  the stable ascending permutation (0-based) of a None-free vector
      v @ w      dot product;  M @ v linear combination of columns;  M @ N column by column
      Vector.new(x, n)  n copies
-     peek()     evenly spaced sample indices, null percentage, top-k by (-count, text)     *)
+     peek()     evenly spaced sample indices, null percentage, top-k by (-count, text)
+     t.T        rows become columns (column-major in, column-major out); t.T.T = t
+     pluck(k)   element k of every item (Python index: negative from the end), default where the
+                item is None or has no such element
+     isinstance(T)  per-element type test (None is NoneType; bool is an int)
+     cast(T)    None stays None, nullable exactly when a None occurs, kind = the target
+     t == x, t < x ...  one non-nullable boolean column per column                         *)
 EXTENDS SerifBase, SerifSort
 
 UniqueVals(vals) == LET first == SelectSeq(Idx(vals), LAMBDA i : \A j \in 1..(i - 1) : vals[j] # vals[i])
@@ -26,4 +32,20 @@ SampleIdx(nrows, k) ==
              all == [i \in 1..((nrows + step - 1) \div step) |-> (i - 1) * step]
          IN SubSeq(all, 1, IF Len(all) < k THEN Len(all) ELSE k)
 NullCount(col, idx) == Cardinality({i \in 1..Len(idx) : IsNone(col[idx[i] + 1])})
+
+Transpose(M, nrows) == [r \in 1..nrows |-> [cc \in 1..Len(M) |-> M[cc][r]]]
+(* items: sequences of cells, or <<NoneV>> standing for a None item (marked by the flag seq) *)
+PyIdx(n, k) == IF k >= 0 /\ k < n THEN k + 1 ELSE IF k < 0 /\ 0 - k <= n THEN n + k + 1 ELSE 0
+Pluck(items, isnone, k, default) ==
+    [i \in 1..Len(items) |-> IF isnone[i] \/ PyIdx(Len(items[i]), k) = 0 THEN default ELSE items[i][PyIdx(Len(items[i]), k)]]
+(* tags: "int" "float" "str" "bool" "none"; Python: isinstance(True, int) *)
+InstanceOf(tag, T) == tag \in T \/ (tag = "bool" /\ "int" \in T)
+IsInstance(tags, T) == [i \in 1..Len(tags) |-> InstanceOf(tags[i], T)]
+CastNullable(vals) == \E i \in 1..Len(vals) : IsNone(vals[i])
+CastNonePos(vals) == {i \in 1..Len(vals) : IsNone(vals[i])}
+(* table compared with a scalar: cells  ->  booleans, None compares False *)
+TableCompare(M, x, op) == [cc \in 1..Len(M) |-> [r \in 1..Len(M[cc]) |->
+    IF IsNone(M[cc][r]) THEN FALSE
+    ELSE CASE op = "eq" -> M[cc][r] = x [] op = "ne" -> M[cc][r] # x [] op = "lt" -> M[cc][r] < x
+           [] op = "le" -> M[cc][r] <= x [] op = "gt" -> M[cc][r] > x [] op = "ge" -> M[cc][r] >= x]]
 =============================================================================
